@@ -19,7 +19,10 @@ var notHandled = notHandledT{}
 
 const unixToInternal int64 = (1969*365 + 1969/4 - 1969/100 + 1969/400) * 86400
 
-var hostStart = time.Now()
+// The clock of every symbolic run starts at the instant at which Go's
+// `faketime` runtime starts (2009-11-10 23:00:00 UTC); native replays are built
+// with -tags faketime, so both sides read the same frozen clock.
+var hostStart = time.Unix(1257894000, 0)
 
 func (in *Interp) resetEnvModels() {
 	in.clockSec = int64(hostStart.Unix())
